@@ -284,3 +284,21 @@ Proof.
   - apply acceptance_implies_agreement in E1. congruence.
   - apply agreement_implies_acceptance in E2. congruence.
 Qed.
+
+(* sparse observation (long runs at large capacities): agreement means that every return value the
+   implementation produced is the model's, and so is the final resident list - the theorems of
+   Properties/C15.v about `lru_step (reach c ops)` then speak about what was observed *)
+Lemma list_out_eqb_spec (a b : list lru_out) : list_eqb out_eqb a b = true -> a = b.
+Proof.
+  revert b. induction a as [|x a IH]; intros [|y b] H; cbn in H; try discriminate; [reflexivity|].
+  apply andb_true_iff in H as [H1 H2]. apply out_eqb_spec in H1. subst y. f_equal. apply IH. exact H2.
+Qed.
+
+Lemma sparse_agreement_exact c ops outs fin :
+  model_agrees_sparse (c, ops, outs, fin) = true ->
+  outs = snd (lru_run (lru_init c) ops) /\ fin = resident (fst (lru_run (lru_init c) ops)).
+Proof.
+  unfold model_agrees_sparse. destruct (lru_run (lru_init c) ops) as [s mouts]. cbn [fst snd].
+  intros H. apply andb_true_iff in H as [H1 H2]. apply list_out_eqb_spec in H1. apply res_eqb_spec in H2.
+  split; congruence.
+Qed.
